@@ -228,5 +228,16 @@ def gantt_record(p, sol):
                         segs.append([int(xs[i]), int(xs[i + 1]), int(ys[i])])
                     bufs.append(segs)
             g["buffers"] = bufs
+        # a chart is a function of the solution: drawing it again while the first figure is still open gives the same
+        # chart (same rows, bars, texts; same number of axes in the figure)
+        first_axes = len(fig.axes)
+        ps.render_gantt_matplotlib(sol, show_plot=False, render_mode=mode)
+        fig2 = plt.gcf()
+        ax2 = fig2.axes[0]
+        again = {"ylabels": [t.get_text() for t in ax2.get_yticklabels()], "bars": _bars(ax2), "texts": [t.get_text() for t in ax2.texts]}
+        diff = [k for k in again if again[k] != g[key][k]]
+        if len(fig2.axes) != first_axes:
+            diff.append(f"axes:{first_axes}->{len(fig2.axes)}")
+        g[key]["redraw_diff"] = diff
         plt.close("all")
     return g
